@@ -425,3 +425,101 @@ def rewrite_try_fold(prog, c):
         bl["term"] = {"t": "goto", "target": H, "sp": sp}
         out.append((Y, hb))
     return out
+
+
+RESULT_MAP = "std::result::Result::<T, E>::map"
+
+
+def rewrite_result_map(prog, c):
+    """`result.map(closure)` with a closure built in the same body, as the `match` it abbreviates:
+           match result { Ok(x) => Ok(closure(x)), Err(e) => Err(e) }
+    so that a value the closure stores in a field (`Name::parse(..).map(|host| Self { preference, host })`) is seen stored there.
+    returns [(block index of the synthetic closure call, closure body)]"""
+    cj = c.j
+    out = []
+    bi = 0
+    while bi < len(cj["blocks"]):
+        bl = cj["blocks"][bi]
+        t = bl["term"]
+        bi += 1
+        if bl["cleanup"] or t["t"] != "call" or not t.get("callee") or t["callee"]["def"] != RESULT_MAP:
+            continue
+        if len(t["args"]) != 2 or t["target"] is None or t["dest"]["p"]:
+            continue
+        a0, a1 = t["args"]
+        if any(a.get("o") not in ("move", "copy") or a["pl"]["p"] for a in (a0, a1)):
+            continue
+        tt = prog.types[c.crate]
+        src_ty, dest_ty = a0["pl"]["t"], t["dest"]["t"]
+        if not tt[src_ty]["s"].startswith("std::result::Result<") or not tt[dest_ty]["s"].startswith("std::result::Result<"):
+            continue
+        if tt[src_ty].get("k") != "adt" or tt[dest_ty].get("k") != "adt" or len(tt[src_ty].get("args") or []) != 2 or \
+                len(tt[dest_ty].get("args") or []) != 2:
+            continue
+        cl_local = a1["pl"]["l"]
+        cdef = None
+        for b2 in cj["blocks"]:
+            for s in b2["stmts"]:
+                if s["s"] == "assign" and not s["pl"]["p"] and s["pl"]["l"] == cl_local:
+                    cdef = s["rv"] if cdef is None else False
+        if not cdef or cdef.get("k") != "agg" or cdef.get("ak") != "closure":
+            continue
+        hb = prog.bodies.get(cdef["def"])
+        if hb is None or hb.argc != 2 or hb.crate != c.crate:
+            continue
+        item_ty = hb.j["locals"][2]["t"]
+        env_ty = hb.j["locals"][1]["t"]
+        ret_ty = hb.j["locals"][0]["t"]
+        ok_ty, err_ty = tt[src_ty]["args"]
+        if item_ty != ok_ty or ret_ty != tt[dest_ty]["args"][0] or err_ty != tt[dest_ty]["args"][1]:
+            continue
+        if tt[env_ty]["k"] == "ref":
+            continue          # `map` takes an FnOnce: the environment is the closure value itself
+        isize_ty = None
+        for i, e in enumerate(tt):
+            if e.get("k") == "int" and e.get("s") == "isize":
+                isize_ty = i
+        if isize_ty is None:
+            continue
+        sp = t["sp"]
+        L = cj["locals"]
+
+        def new_local(ty):
+            L.append({"t": ty, "mut": True})
+            return len(L) - 1
+
+        def place(l, ty, p=None):
+            return {"l": l, "p": p or [], "t": ty}
+
+        def assign(pl, rv):
+            return {"s": "assign", "pl": pl, "rv": rv, "sp": sp}
+        r_l = a0["pl"]["l"]
+        d_l, x_l, e_l, res_l, err_l = new_local(isize_ty), new_local(item_ty), new_local(env_ty), new_local(ret_ty), new_local(err_ty)
+        B = cj["blocks"]
+        base = len(B)
+        S, U, Y, K, E = (base + i for i in range(5))
+        target, unwind = t["target"], t.get("unwind")
+        B.append({"stmts": [assign(place(d_l, isize_ty), {"k": "discr", "pl": place(r_l, src_ty)})],
+                  "term": {"t": "switch", "discr": {"o": "move", "pl": place(d_l, isize_ty)}, "arms": [["0", Y], ["1", E]], "otherwise": U, "sp": sp},
+                  "cleanup": False})
+        B.append({"stmts": [], "term": {"t": "unreachable", "sp": sp}, "cleanup": False})
+        ok0 = place(r_l, item_ty, [{"dc": 0, "n": "Ok"}, {"f": 0, "n": "0", "adt": "std::result::Result", "v": "Ok"}])
+        er0 = place(r_l, err_ty, [{"dc": 1, "n": "Err"}, {"f": 0, "n": "0", "adt": "std::result::Result", "v": "Err"}])
+        call = {"t": "call", "callee": {"cargs": [], "may_call": [], "id": hb.id, "def": hb.j["def"], "full": hb.j["def"], "orig": hb.j["def"],
+                                       "resolved": True, "trait_item": False, "trait": None, "targs": [], "crate": c.crate,
+                                       "name": hb.j.get("name") or "{closure}", "local": True, "impl": None},
+                "fop": None, "args": [{"o": "move", "pl": place(e_l, env_ty)}, {"o": "move", "pl": place(x_l, item_ty)}],
+                "dest": place(res_l, ret_ty), "target": K, "unwind": unwind, "src": "Normal", "sp": sp, "fsp": t.get("fsp")}
+        B.append({"stmts": [assign(place(x_l, item_ty), {"k": "use", "op": {"o": "move", "pl": ok0}}),
+                            assign(place(e_l, env_ty), {"k": "use", "op": {"o": "move", "pl": place(cl_local, a1["pl"]["t"])}})],
+                  "term": call, "cleanup": False})
+        okv = {"k": "agg", "ak": "adt", "adt": "std::result::Result", "vn": "Ok", "vi": 0, "fields": ["0"], "union_field": None,
+               "ops": [{"o": "move", "pl": place(res_l, ret_ty)}]}
+        B.append({"stmts": [assign(place(t["dest"]["l"], dest_ty), okv)], "term": {"t": "goto", "target": target, "sp": sp}, "cleanup": False})
+        erv = {"k": "agg", "ak": "adt", "adt": "std::result::Result", "vn": "Err", "vi": 1, "fields": ["0"], "union_field": None,
+               "ops": [{"o": "move", "pl": place(err_l, err_ty)}]}
+        B.append({"stmts": [assign(place(err_l, err_ty), {"k": "use", "op": {"o": "move", "pl": er0}}), assign(place(t["dest"]["l"], dest_ty), erv)],
+                  "term": {"t": "goto", "target": target, "sp": sp}, "cleanup": False})
+        bl["term"] = {"t": "goto", "target": S, "sp": sp}
+        out.append((Y, hb))
+    return out
